@@ -432,5 +432,5 @@ def describe(tier):
                      'option is not wired in this snapshot)',
                      'timers (read timeouts) only fire when nothing else can happen',
                      'html5lib scraper; robots off'],
-        time_cap_s=None if tier == 'quick' else 3000,
+        time_cap_s=None if tier == 'quick' else 2400,
     )
